@@ -453,6 +453,68 @@ def rule_lin(ctx: Ctx) -> RuleReport:
                 rep.ok({"branch": tag, "order": order})
             else:
                 rep.fail(Finding("C19-LIN", OMML, pe.qual, f"m:{tag} order {order}", f"m:{tag} emits its operands in order {order}, source order is {CHILD_ORDER[tag]}", line=r.lineno))
+    # (k) what is dropped with its whole subtree before the dispatch: nothing but absent elements and the listed property elements; the list
+    # names no element that can hold a run (ECMA-376 part 1, 22.1.2: the structures, their argument elements, runs; the WordprocessingML
+    # wrappers a math zone may sit in or contain)
+    CONTENT = {"acc", "bar", "box", "borderBox", "d", "eqArr", "f", "func", "groupChr", "limLow", "limUpp", "m", "nary", "phant", "rad", "sPre", "sSub", "sSubSup", "sSup",
+               "r", "t", "e", "num", "den", "sub", "sup", "deg", "fName", "lim", "mr", "oMath", "oMathPara", "ins", "moveTo", "sdt", "sdtContent", "smartTag", "hyperlink", "fldSimple", "customXml"}
+    prm_ = {a.arg for a in pe.node.args.args}
+    tagv_ = {n.targets[0].id for n in pe.node.body if isinstance(n, ast.Assign) and len(n.targets) == 1 and isinstance(n.targets[0], ast.Name)
+             and any(isinstance(x, ast.Attribute) and x.attr == "tag" and isinstance(x.value, ast.Name) and x.value.id in prm_ for x in ast.walk(n.value))}
+    branch_stmts = {id(st) for _t, st in branches}
+    n_drop = 0
+    for st in pe.node.body:
+        if not isinstance(st, ast.If) or id(st) in branch_stmts or not st.body or not isinstance(st.body[-1], ast.Return):
+            continue
+        rv = st.body[-1].value
+        if any(_is_pe_call(x) for b in st.body for x in ast.walk(b)) or not (rv is None or isinstance(rv, ast.Constant)):
+            continue
+        n_drop += 1
+        t = st.test
+        if isinstance(t, ast.Compare) and len(t.ops) == 1 and isinstance(t.ops[0], ast.Is) and isinstance(t.left, ast.Name) and t.left.id in prm_ and isinstance(t.comparators[0], ast.Constant) and t.comparators[0].value is None:
+            rep.ok({"dropped_before_dispatch": "absent element"})
+        elif isinstance(t, ast.Compare) and len(t.ops) == 1 and isinstance(t.ops[0], ast.In) and isinstance(t.left, ast.Name) and t.left.id in tagv_:
+            S = ctx.folder.fold(ctx.p.module(OMML), t.comparators[0])
+            if not isinstance(S, (set, frozenset, tuple, list)):
+                raise AnalysisError(f"C19-LIN: the set of skipped element names `{norm(t.comparators[0])}` cannot be folded")
+            hit = sorted(set(S) & CONTENT)
+            if hit:
+                rep.fail(Finding("C19-LIN", OMML, pe.qual, f"skipped element names include {', '.join(hit)}", f"`{short(t, 40)}` drops {', '.join('<' + h + '>' for h in hit)} with everything inside: these elements hold runs (structures, argument elements, runs, tracked-change and content-control wrappers), their text is missing from the formula", line=st.lineno))
+            else:
+                rep.ok({"dropped_before_dispatch": f"{len(S)} property element names, none can hold a run"})
+        elif all(isinstance(c.func, ast.Name) and c.func.id == "isinstance" for c in ast.walk(t) if isinstance(c, ast.Call)) and any(isinstance(c, ast.Call) for c in ast.walk(t)):
+            rep.ok({"dropped_before_dispatch": "non-element node (comment / processing instruction): " + short(t, 40)})
+        else:
+            rep.fail(Finding("C19-LIN", OMML, pe.qual, "element dropped before the dispatch: " + anorm(t, pe.node), f"`if {short(t, 50)}: return {short(rv, 10) if rv is not None else ''}` drops an element with its whole subtree by a test that is neither `is None` nor the list of property elements: math runs inside a tracked insertion (w:ins), a content control (w:sdt) or a smart tag, and w:t text inside m:r, produce no output", line=st.lineno))
+    if n_drop < 2:
+        raise AnalysisError(f"C19-LIN: only {n_drop} early exits of process_element found (2 confirmed: absent element, property elements)")
+    # (j) templates moved into a helper of the module: the helper is linear in its parameters -- on each of its return paths every
+    # parameter is emitted exactly once, or the path's own condition says that this parameter is blank
+    mod_ = ctx.p.module(OMML)
+    helper_calls = {}
+    for tag, st in branches:
+        for r_ in [n for n in ast.walk(st) if isinstance(n, ast.Return) and n.value is not None]:
+            for c in ast.walk(r_.value):
+                if isinstance(c, ast.Call) and isinstance(c.func, ast.Name) and c.func.id in mod_.functions and not _is_pe_call(c) and c.func.id != conv.name and mod_.functions[c.func.id].parent is None:
+                    helper_calls.setdefault(c.func.id, []).append((tag, c))
+    for hname, sites in sorted(helper_calls.items()):
+        h = mod_.functions[hname]
+        rep.unit(h.key)
+        hparams = [a.arg for a in h.node.args.args]
+        huses = _Uses(h.node.body, set(hparams))
+        for r_ in [n for n in walk_own(h.node) if isinstance(n, ast.Return)]:
+            cnt = huses.count(r_.value) if r_.value is not None else {}
+            conds, _, _ = path_conditions(h.node, r_)
+            cs = {str(c) for c in conds}
+            for v in hparams:
+                k = cnt.get(v, 0)
+                if k == 1:
+                    rep.ok({"helper": hname, "return": short(r_.value, 40) if r_.value is not None else "None", "parameter": v, "uses": 1})
+                elif k == 0 and (f"not {v}" in cs or f"not {v}.strip()" in cs):
+                    rep.ok({"helper": hname, "return": short(r_.value, 40) if r_.value is not None else "None", "parameter": v, "uses": 0, "exempt": "parameter is blank on this path"})
+                else:
+                    tags_ = sorted({t for t, _c in sites})
+                    rep.fail(Finding("C19-LIN", OMML, h.qual, f"{hname}: parameter emitted {k} times in {anorm(r_, h.node)}", f"`{short(r_, 50)}` (taken when {' and '.join(sorted(cs)) or 'always'}) emits parameter `{v}` {k} times; the branches for m:{', m:'.join(tags_)} pass operand text in it (degree of a radical, name of a function): that text is lost or repeated", line=r_.lineno))
     # (g) an element's own property child decides its characters: no descendant search inside a structural branch (a nested
     # delimiter / operator / accent in the operands would lend its character to the outer element)
     mod = ctx.p.module(OMML)
@@ -648,6 +710,8 @@ def _origin(pe, arg, scope=None, depth=0, at=None):
 
 
 # ------------------------------------------------------------------------------------------- BAL
+_HELPERS: dict = {}
+
 def _brace_net(uses: "_Uses | None", e, depth=0) -> int | None:
     """Net count of literal '{' minus '}' in the constant parts of an emitted expression (None = unknown)."""
     if e is None or depth > 12:
@@ -688,6 +752,26 @@ def _brace_net(uses: "_Uses | None", e, depth=0) -> int | None:
         return t
     if isinstance(e, ast.Call):
         f = e.func
+        if isinstance(f, ast.Name) and f.id in _HELPERS:
+            # a template helper of the module: the braces of its own returns (all paths alike, or the empty string) plus those of the arguments
+            h = _HELPERS[f.id]
+            hu = _Uses(h.body, set())
+            hu.defs = {k: v for k, v in hu.defs.items() if k not in {a.arg for a in h.args.args}}
+            nets = set()
+            for r_ in [n for n in ast.walk(h) if isinstance(n, ast.Return)]:
+                n_ = _brace_net(hu, r_.value, depth + 1)
+                if n_ is None:
+                    return None
+                nets.add(n_)
+            if len(nets) > 1:
+                return None
+            t = nets.pop() if nets else 0
+            for a in e.args:
+                n_ = _brace_net(uses, a, depth + 1)
+                if n_ is None:
+                    return None
+                t += n_
+            return t
         if isinstance(f, ast.Attribute) and f.attr == "get" and len(e.args) == 2:
             # table lookup with default: the table's values are checked separately, the default is an operand
             return 0
@@ -704,6 +788,8 @@ def _brace_net(uses: "_Uses | None", e, depth=0) -> int | None:
 def rule_bal(ctx: Ctx) -> RuleReport:
     rep = RuleReport("C19-BAL", "literal braces of every returned template balance; the pending-radical stack is pushed non-None, popped under a guard and drained at the end")
     top, pe, conv = _funcs(ctx)
+    _HELPERS.clear()
+    _HELPERS.update({n: f.node for n, f in ctx.p.module(OMML).functions.items() if f.parent is None and n not in (top.name, conv.name)})
     rep.unit(pe.key)
     m = ctx.p.module(OMML)
     # the pending state: a list (stack)
